@@ -1,11 +1,12 @@
 ------------------------------- MODULE MCH2pe -------------------------------
 (* Prints the H2PE anchors of H2peTable as cases for the harness *)
-EXTENDS H2peTable, Sequences, Integers, TLC, Json
+EXTENDS H2peTable, Sequences, Integers, TLC, Json, IOUtils
+TT == IF "TIER" \in DOMAIN IOEnv /\ IOEnv.TIER = "thorough" THEN HTabT ELSE HTab
 VARIABLE c
 Init == c = 0
-Next == /\ c < Len(HTab) /\ c' = c + 1
-        /\ PrintT(<<"CASE", ToJson([kernel |-> "h2pe", id |-> HTab[c'].id, N |-> HTab[c'].N, K |-> HTab[c'].K, n |-> HTab[c'].n,
-                                     r1 |-> [k \in 1..Len(HTab[c'].r1) |-> HTab[c'].r1[k].w1],
-                                     rt |-> [k \in 1..Len(HTab[c'].rt) |-> [w1 |-> HTab[c'].rt[k].w1, probe |-> HTab[c'].rt[k].probe, out |-> HTab[c'].rt[k].out]]])>>)
+Next == /\ c < Len(TT) /\ c' = c + 1
+        /\ PrintT(<<"CASE", ToJson([kernel |-> "h2pe", id |-> TT[c'].id, N |-> TT[c'].N, K |-> TT[c'].K, n |-> TT[c'].n,
+                                     r1 |-> [k \in 1..Len(TT[c'].r1) |-> TT[c'].r1[k].w1],
+                                     rt |-> [k \in 1..Len(TT[c'].rt) |-> [w1 |-> TT[c'].rt[k].w1, probe |-> TT[c'].rt[k].probe, out |-> TT[c'].rt[k].out]]])>>)
 Spec == Init /\ [][Next]_c
 =============================================================================
